@@ -556,7 +556,14 @@ def antichain_numerics(prog: Program, rep, RID: str):
     while isinstance(e, ast.Name) and e.id in defs and seen < 3:
         e = defs[e.id]
         seen += 1
-    if any(isinstance(n, ast.Call) and dotted(n.func) == "sum" and "demands_attr" in norm(n) for n in ast.walk(e)):
+    closure = [e]
+    for _ in range(3):
+        for x in list(closure):
+            for n in ast.walk(x):
+                if isinstance(n, ast.Name) and n.id in defs and defs[n.id] not in closure:
+                    closure.append(defs[n.id])
+    if isinstance(e, ast.Call) and dotted(e.func) == "max" and \
+            any(isinstance(n, ast.Call) and dotted(n.func) == "sum" and "demands_attr" in norm(n) for x in closure for n in ast.walk(x)):
         rep.ok(RID, key, f"supply `{norm(e)[:80]}` exceeds the sum of the demands", g.loc())
     elif norm(e) in ("bigNumber", "graphutils.bigNumber") or isinstance(e, ast.Constant):
         rep.violation(RID, key, f"the supply of the auxiliary flow is the constant `{norm(e)}`: when the maximum antichain weighs more, the flow is infeasible, the blanket "
